@@ -56,8 +56,12 @@
   acceptance theorems means exactly that (`KeyColumn`, SSJ/Props/Common.lean); the companion file
   `SSJ/Props/C15_keys.lean` proves that a key column such as `[1, 1.0]` is rejected by every entry point.
 
-  NOT COVERED.  `profile_table_for_join` argument validation (the profiler model starts at the column level; C17);
-  the converters (C16: `frame_modes`/`series_error_iff`).  That the DataFrame objects passed in are not mutated is
+  THE PROFILER.  The argument validation of `profile_table_for_join` is covered by the companion file
+  `SSJ/Props/C15_profiler.lean` (`profile_rejects_non_dataframe`, `profile_rejects_unknown_attribute`,
+  `profile_accepts` — any number of rows, none included —, `profile_returns_iff`, `profile_error_kind`); the content of
+  the statistics is C17.
+
+  NOT COVERED.  The converters (C16: `frame_modes`/`series_error_iff`).  That the DataFrame objects passed in are not mutated is
   outside what a value-level model can exhibit (see C12).  The tie to the real exception classes is the `validation`
   correspondence suite of the harness.
 -/
